@@ -17,7 +17,7 @@ MODELLED = ("_collint_get_lbx_ubx (2046-2127), the history / initial-derivative 
 NOT_MODELLED = "vector-valued variables (per-component bounds), bounds merged from several sources (C19 merge_bounds, C14)"
 ASSUMPTIONS = ["history series end at t0 (the code asserts it)"]
 
-FEAT = {"bounds": True, "history": True}
+FEAT = {"bounds": True, "history": True, "pvars": True}
 
 
 def run(ctx):
